@@ -22,6 +22,10 @@ pub struct Case {
     pub d: Doc,
     pub cuts: Vec<usize>,
     pub esi: bool,
+    /// 0: element handlers only (tag-scan mode between matches); 1: plus document-level text and
+    /// comment handlers (the lexer runs everywhere); 2: every other selector also carries text,
+    /// comment and end-tag handlers (mode changes at scope boundaries)
+    pub mode: u8,
 }
 
 pub fn decode(tape: &[u16]) -> Case {
@@ -31,25 +35,40 @@ pub fn decode(tape: &[u16]) -> Case {
     let esi = t.chance(1, 8);
     let spec = sched_spec(&mut t);
     let odd = t.chance(1, 3);
+    let mode = t.weighted(&[3, 1, 2]) as u8;
     let d = doc(&mut t, &DocOpts { max_items: 16, max_depth: 6, odd_attrs: odd, multibyte: false, ..DocOpts::default() });
     let cuts = spec.resolve(d.bytes.len());
-    Case { sels, d, cuts, esi }
+    Case { sels, d, cuts, esi, mode }
 }
 
 pub fn run_real(strs: &[String], input: &[u8], cuts: &[usize], esi: bool) -> Result<Vec<(usize, usize)>, String> {
+    run_real_mode(strs, input, cuts, esi, 0)
+}
+
+pub fn run_real_mode(strs: &[String], input: &[u8], cuts: &[usize], esi: bool, mode: u8) -> Result<Vec<(usize, usize)>, String> {
     let log: Rc<RefCell<Vec<(usize, usize)>>> = Default::default();
     let r = guard(|| -> Result<(), String> {
         let mut st = Settings::new().with_strict(false).with_enable_esi_tags(esi);
         for (i, s) in strs.iter().enumerate() {
             let p: Selector = s.parse().map_err(|e| format!("selector {s:?} rejected: {e}"))?;
             let lg = log.clone();
-            st = st.append_element_content_handler((
-                Cow::Owned(p),
-                ElementContentHandlers::default().element(move |el: &mut Element<'_, '_>| {
-                    lg.borrow_mut().push((i, el.source_location().bytes().start));
-                    Ok(())
-                }),
-            ));
+            let scoped = mode == 2 && i % 2 == 0;
+            let mut h = ElementContentHandlers::default().element(move |el: &mut Element<'_, '_>| {
+                lg.borrow_mut().push((i, el.source_location().bytes().start));
+                if scoped {
+                    if let Some(hs) = el.end_tag_handlers() {
+                        hs.push(Box::new(|_e: &mut lol_html::html_content::EndTag<'_>| Ok(())));
+                    }
+                }
+                Ok(())
+            });
+            if scoped {
+                h = h.text(|_t: &mut lol_html::html_content::TextChunk<'_>| Ok(())).comments(|_c: &mut lol_html::html_content::Comment<'_>| Ok(()));
+            }
+            st = st.append_element_content_handler((Cow::Owned(p), h));
+        }
+        if mode == 1 {
+            st = st.append_document_content_handler(lol_html::DocumentContentHandlers::default().text(|_t: &mut lol_html::html_content::TextChunk<'_>| Ok(())).comments(|_c: &mut lol_html::html_content::Comment<'_>| Ok(())));
         }
         let mut rw = HtmlRewriter::new(st, |_: &[u8]| {});
         for c in split(input, cuts) {
@@ -68,7 +87,7 @@ pub fn check_case(c: &Case, st: &mut Stats) -> PResult {
     let strs: Vec<String> = c.sels.iter().map(render).collect();
     let tree = induce(&c.d, c.esi);
     st.eval();
-    let mut got = run_real(&strs, &c.d.bytes, &c.cuts, c.esi).map_err(|e| Failure::new(format!("C04: {e}")))?;
+    let mut got = run_real_mode(&strs, &c.d.bytes, &c.cuts, c.esi, c.mode).map_err(|e| Failure::new(format!("C04: {e}")))?;
     let n = got.len();
     got.sort();
     got.dedup();
@@ -107,6 +126,7 @@ pub fn check_case(c: &Case, st: &mut Stats) -> PResult {
         let together: Vec<usize> = got.iter().filter(|x| x.0 == k).map(|x| x.1).collect();
         ensure!(alone == together, "C04: matches of selector {:?} depend on the other registered selectors {strs:?}: alone={alone:?} together={together:?} doc={:?}", strs[k], show(&c.d.bytes));
     }
+    st.label(&format!("handler_mode_{}", c.mode));
     let comb = c.sels.iter().any(|s| has_combinator(s) || has_not_or_nth(s));
     let deep = tree.elems.iter().any(|e| e.depth >= 2);
     let multi_close = tree.closes.iter().any(|c| c.len() > 1) || c.d.has_misnest;
@@ -145,7 +165,7 @@ impl Prop for C04 {
                     let d = build(&[(TK::Start, "<div id=\"a\" class=\" a \">", "div", Ns::Html, ""), (TK::End, "</div>", "div", Ns::Html, "")]);
                     for (name, op) in [("id", "^="), ("id", "$="), ("class", "~=")] {
                         let sels = one(vec![Simple::Attr { name: name.into(), op, val: "".into(), flag: None }]);
-                        check_case(&Case { sels, d: d.clone(), cuts: vec![], esi: false }, st)?;
+                        check_case(&Case { sels, d: d.clone(), cuts: vec![], esi: false, mode: 0 }, st)?;
                     }
                     Ok(())
                 }),
@@ -157,15 +177,15 @@ impl Prop for C04 {
                 run: Box::new(|st| {
                     let d = build(&[(TK::Start, "<p id=\"a\">", "p", Ns::Html, ""), (TK::End, "</p>", "p", Ns::Html, "")]);
                     let s1 = one(vec![Simple::Not(vec![vec![Simple::Type("p".into()), Simple::Class("foo".into())]])]);
-                    check_case(&Case { sels: s1, d: d.clone(), cuts: vec![], esi: false }, st)?;
+                    check_case(&Case { sels: s1, d: d.clone(), cuts: vec![], esi: false, mode: 0 }, st)?;
                     let s2 = one(vec![Simple::Not(vec![vec![Simple::Not(vec![vec![Simple::Id("a".into())], vec![Simple::Id("b".into())]])]])]);
-                    check_case(&Case { sels: s2, d, cuts: vec![], esi: false }, st)
+                    check_case(&Case { sels: s2, d, cuts: vec![], esi: false, mode: 0 }, st)
                 }),
             },
         ]
     }
     fn rule(&self) -> String {
-        "case = (set of 1-6 selectors from the full supported grammar built from a shared pool of compounds, structured document incl. mis-nesting/voids/foreign islands/odd attribute syntax, schedule); oracle: for every selector the set of start-tag offsets its element handler fired for == R-css(selector) evaluated on R-tree (tree induced from the flat token sequence), no duplicate invocation, and one selector registered alone gives the same matches. non-trivial = some selector has a combinator/:not/:nth-*, the document has depth >= 2 and an end tag closing several elements or a stray/omitted end tag, and >= 1 expected match; distinct by hash(doc, selectors)".into()
+        "case = (set of 1-6 selectors from the full supported grammar built from a shared pool of compounds, structured document incl. mis-nesting/voids/foreign islands/odd attribute syntax, schedule, handler mode [element handlers only / plus document-level text+comment handlers / every other selector also carrying text, comment and end-tag handlers]); oracle: for every selector the set of start-tag offsets its element handler fired for == R-css(selector) evaluated on R-tree (tree induced from the flat token sequence), no duplicate invocation, and one selector registered alone gives the same matches. non-trivial = some selector has a combinator/:not/:nth-*, the document has depth >= 2 and an end tag closing several elements or a stray/omitted end tag, and >= 1 expected match; distinct by hash(doc, selectors)".into()
     }
     fn assumptions(&self) -> Vec<String> {
         vec!["attribute names avoid the `selectors` crate's legacy case-insensitive-value list so that value matching is exactly the CSS operator + flag rule".into(), "open finding C04-not-flattening: :not() with compound arguments (odd depth) / list arguments (even depth) is generated rarely and classified by signature".into()]
@@ -181,6 +201,6 @@ impl Prop for C04 {
     }
     fn describe(&self, tape: &[u16]) -> Value {
         let c = decode(tape);
-        json!({"selectors": c.sels.iter().map(render).collect::<Vec<_>>(), "doc": show(&c.d.bytes), "cuts": c.cuts, "esi": c.esi})
+        json!({"selectors": c.sels.iter().map(render).collect::<Vec<_>>(), "doc": show(&c.d.bytes), "cuts": c.cuts, "esi": c.esi, "handler_mode": c.mode})
     }
 }
